@@ -62,3 +62,70 @@ def fork_call(fn, *args, timeout=300):
     if kind != "ok":
         raise HarnessError("isolated execution failed:\n" + payload)
     return payload
+
+
+class PristineServer:
+    """A child forked NOW - before the caller has executed any code under test - that later runs reference executions on
+    request, each in its own grandchild, so that a reference really starts from the pristine post-import state even when it is
+    asked for after the simulated run has executed (and possibly polluted process-global state) in the caller."""
+
+    def __init__(self):
+        self.nofork = bool(os.environ.get("VERIF_NOFORK"))
+        if self.nofork:
+            return
+        self.req_r, self.req_w = os.pipe()
+        self.res_r, self.res_w = os.pipe()
+        sys.stdout.flush()
+        self.pid = os.fork()
+        if self.pid == 0:
+            code = 0
+            try:
+                os.close(self.req_w)
+                os.close(self.res_r)
+                signal.setitimer(signal.ITIMER_REAL, 0)
+                with os.fdopen(self.req_r, "rb") as fin, os.fdopen(self.res_w, "wb") as fout:
+                    while True:
+                        try:
+                            fn, args = pickle.load(fin)
+                        except EOFError:
+                            break
+                        try:
+                            out = ("ok", fork_call(fn, *args))
+                        except BaseException as e:
+                            out = ("err", "".join(traceback.format_exception(type(e), e, e.__traceback__)))
+                        pickle.dump(out, fout)
+                        fout.flush()
+            except BaseException:
+                code = 3
+            finally:
+                os._exit(code)
+        os.close(self.req_r)
+        os.close(self.res_w)
+        self.fout = os.fdopen(self.req_w, "wb")
+        self.fin = os.fdopen(self.res_r, "rb")
+
+    def call(self, fn, *args):
+        if self.nofork:
+            return fn(*args)
+        pickle.dump((fn, args), self.fout)
+        self.fout.flush()
+        try:
+            kind, payload = pickle.load(self.fin)
+        except EOFError:
+            raise HarnessError("pristine reference server died")
+        if kind != "ok":
+            raise HarnessError("reference execution failed:\n" + str(payload))
+        return payload
+
+    def close(self):
+        if self.nofork:
+            return
+        try:
+            self.fout.close()
+            self.fin.close()
+        except Exception:
+            pass
+        try:
+            os.waitpid(self.pid, 0)
+        except OSError:
+            pass
